@@ -457,6 +457,16 @@ impl<'a> Ctx<'a> {
 
 pub type RunFn = fn(&mut Ctx);
 
+/// argument of the per-enum fuzz entry emitted for libFuzzer targets
+pub struct FzArg<'a> {
+    pub spec: &'a EnumSpec,
+    pub pm: &'a inputs::PM,
+    pub data: &'a [u8],
+    /// Some({kind, input, expected, actual}) when the oracle fails
+    pub out: Option<serde_json::Value>,
+}
+pub type FzFn = fn(&mut FzArg);
+
 /// catch a panic and return its message
 pub fn catch<T>(f: impl FnOnce() -> T) -> Result<T, String> {
     match std::panic::catch_unwind(std::panic::AssertUnwindSafe(f)) {
